@@ -158,6 +158,9 @@ pub struct Cfg {
     /// a node that changes its address keeps receiving on the old ones (multi-homed host)
     #[serde(default)]
     pub keep_old_addrs: bool,
+    /// poll a pacing-blocked connection every this many microseconds (0: sleep until its timer)
+    #[serde(default)]
+    pub eager_poll_us: u64,
     #[serde(default)]
     pub client_tp: Vec<Value>,
     #[serde(default)]
@@ -562,6 +565,7 @@ pub struct World {
     pub cur_rx_id: i64,
     pub cur_rx_uid: i64,
     pub dcid_ctr: Arc<AtomicU64>,
+    pub eager_left: u64,
     pub cur_tx_uid: i64,
     pub next_uid: i64,
     /// encoded transport parameters each side presented (tapped at the crypto provider)
@@ -798,6 +802,7 @@ impl World {
             cur_rx_id: -1,
             cur_rx_uid: -1,
             dcid_ctr: Arc::new(AtomicU64::new(0)),
+            eager_left: 30_000,
             cur_tx_uid: -1,
             next_uid: 0,
             tp_server,
@@ -1700,6 +1705,26 @@ impl World {
         let late = self.cfg.late_us;
         let nd = self.next_delivery().map(|i| self.net[i].at_us);
         let nt = self.next_timer().map(|(t, n, c)| (t + late, n, c));
+        // an over-eager driver: while a connection waits for its pacing timer it is polled again and
+        // again at short intervals instead of sleeping until the timer (bounded per run)
+        if self.cfg.eager_poll_us > 0 && self.eager_left > 0 {
+            let epoch = self.epoch;
+            let paced: Option<(usize, usize)> = self.nodes.iter().find_map(|node| {
+                node.conns.iter().find(|(_, s)| !s.drained && s.conn.verif_probe(epoch).timers[6].is_some())
+                    .map(|(c, _)| (node.idx, *c))
+            });
+            if let Some((n, c)) = paced {
+                let at = self.now_us + self.cfg.eager_poll_us;
+                let next = nd.unwrap_or(u64::MAX).min(nt.map_or(u64::MAX, |x| x.0));
+                if at < next && at <= limit_us {
+                    self.eager_left -= 1;
+                    self.now_us = at;
+                    self.clock.store(self.now_us, Ordering::Relaxed);
+                    self.poll_transmit_once(n, c);
+                    return true;
+                }
+            }
+        }
         let pick_delivery = match (nd, nt) {
             (None, None) => return false,
             (Some(_), None) => true,
